@@ -439,6 +439,7 @@ Ltac step_tac :=
   | |- _ /\ _ => split
   | |- forall _, _ => intro
   | H : ?x = Concurrent |- context [?x] => rewrite H
+  | H : a_prot ?x = Mutex _, P : a_prot ?x = _ |- _ => rewrite P in H
   | H : Mutex _ = Mutex _ |- _ => inversion H; subst; clear H
   | H : Atomic = Mutex _ |- _ => discriminate H
   | H : Plain = Mutex _ |- _ => discriminate H
@@ -466,8 +467,8 @@ Proof.
        end.
   all: split; [|apply Hadj; reflexivity].
   all: intros i s Hs;
-       repeat (destruct i as [|i]; [inversion Hs; subst; clear Hs; step_tac | simpl in Hs]);
-       try (destruct i; discriminate).
+       repeat (destruct i as [|i];
+               [inversion Hs; subst; clear Hs; step_tac | simpl in Hs; try (destruct i; discriminate Hs)]).
 Qed.
 
 (* ------------------------------------------------------------------ examples (used by Properties_C10) *)
@@ -520,3 +521,20 @@ Proof.
   unfold same_set, subset_str. rewrite andb_true_iff, !forallb_forall. intros [A B] x.
   split; intros H; apply mem_str_in; auto.
 Qed.
+
+(* no racy variable <-> no offending pair *)
+Lemma dedup_nil l seen : dedup l seen = [] -> forall x, In x l -> In x seen.
+Proof.
+  revert seen; induction l as [|a l IH]; simpl; intros seen H x Hx; [contradiction|].
+  destruct (mem_str a seen) eqn:E; [|discriminate].
+  destruct Hx as [->|Hx]; [apply mem_str_in; assumption|]. apply IH; assumption.
+Qed.
+
+Lemma racy_vars_nil tbl : racy_vars tbl = [] -> race_freeb tbl = [].
+Proof.
+  unfold racy_vars. intros H. destruct (race_freeb tbl) as [|p r] eqn:E; [reflexivity|].
+  exfalso. apply (dedup_nil _ _ H (var_name (a_var (o_acc (fst p))))). simpl. left; reflexivity.
+Qed.
+
+Lemma same_set_nil l : same_set l [] = true -> l = [].
+Proof. destruct l as [|x l]; [reflexivity|]. unfold same_set, subset_str; simpl. discriminate. Qed.
